@@ -1,7 +1,1266 @@
-"""stub"""
+"""Field decoder for x86 / x86-64 instruction bytes driven by the ISA database ("the encoding rules of the
+database" leg of C01).
+
+check(case, bytes, candidate_forms) decides whether there EXISTS a database form of the requested mnemonic
+ - whose operand signature admits the requested operands, and
+ - whose encoding rules (prefix kind, pp, map, W, L, opcode byte, /digit, operand->field roles, disp8*N,
+   immediate size) are all met by the byte string, with every field that influences what the CPU executes
+   holding the value the requested operands imply, and
+ - whose total length equals the number of bytes appended.
+
+Everything expected comes from the database record and the request; field positions, ModRM/SIB/displacement
+rules, the 16-bit addressing table, the EVEX disp8*N table (SDM vol.2 tables 2-34/2-35) and prefix layouts are
+written down from the Intel SDM vol.2 chapter 2 here - nothing is read from asmjit.
+
+Don't-care rules (so that the leg demands no more than the property): WIG/LIG fields, a redundant REX / VEX3 /
+EVEX-instead-of-VEX (that is simply another candidate form), [b] vs [b+0] vs disp32 of the same value, SIB-less
+vs SIB-with-no-index, base/index exchange at scale 1 where the default segment is the same, default-segment
+overrides that equal the default (and es/cs/ss/ds in 64-bit mode), L'L under {sae}.
+"""
+
+from lib import x86cases as X
+
+OPT = X.OPT
+
+LEGACY_PREFIXES = {0xF0, 0xF2, 0xF3, 0x2E, 0x36, 0x3E, 0x26, 0x64, 0x65, 0x66, 0x67}
+SEG_PREFIX = {0x26: 1, 0x2E: 2, 0x36: 3, 0x3E: 4, 0x64: 5, 0x65: 6}
+MAP_NUM = {"0F": 1, "0F38": 2, "0F3A": 3, "MAP4": 4, "MAP5": 5, "MAP6": 6, "MAP7": 7, "MAP8": 8, "MAP9": 9, "MAPA": 10}
+PP_NUM = {"": 0, "NP": 0, "66": 1, "F3": 2, "F2": 3}
+
+# 16-bit addressing, SDM vol.2 table 2-1: rm -> (base, index) register numbers
+MOD16 = {0: (3, 6), 1: (3, 7), 2: (5, 6), 3: (5, 7), 4: (6, None), 5: (7, None), 6: (5, None), 7: (3, None)}
+
+# ---------------------------------------------------------------------------------------------------------------
+# Database errata: records whose encoding text contradicts the architecture manuals.  Each entry patches the parsed
+# record before it is used, and says why.  (Without them the db leg would raise an alarm on correct bytes.)
+# key: (name, signature, opcodeString)
+# ---------------------------------------------------------------------------------------------------------------
+DB_ERRATA = {
+    # SDM: LEA r16,m = 66 8D /r (operand-size prefix); the record writes 67 (address-size) instead
+    ("lea", "67 8D /r"): dict(pp="66", _67h=False,
+                              why="SDM vol.2 LEA: '8D /r LEA r16,m' takes the operand-size prefix 66, not 67"),
+    ("shrd", "66 0F AC /r ib"): dict(pp="", why="SDM SHRD r/m,r,imm8 = 0F AC /r ib; 66 only in the 16-bit member (group rule)"),
+    ("fsqrt", "D9 FE"): dict(byte="FA", why="SDM FSQRT = D9 FA (D9 FE is FSIN)"),
+    ("vmovupd", "VEX.Lxy.NP.0F.WIG 10 /r"): dict(pp="66", why="SDM VMOVUPD = VEX.66.0F 10"),
+    ("vmovupd", "VEX.Lxy.NP.0F.WIG 11 /r"): dict(pp="66", why="SDM VMOVUPD = VEX.66.0F 11"),
+    ("vmovups", "VEX.Lxy.66.0F.WIG 10 /r"): dict(pp="NP", why="SDM VMOVUPS = VEX.0F 10 (no pp)"),
+    ("vmovups", "VEX.Lxy.66.0F.WIG 11 /r"): dict(pp="NP", why="SDM VMOVUPS = VEX.0F 11 (no pp)"),
+    ("vmovntps", "EVEX.xyz.66.0F.W0 2B /r"): dict(pp="NP", why="SDM VMOVNTPS = EVEX.0F.W0 2B (66 is VMOVNTPD)"),
+    ("movsd", "F2 0F 11 /r"): dict(add_reg={0: "xmm"}, why="SDM MOVSD xmm1/m64, xmm2 = F2 0F 11 /r (the record lists m64 only)"),
+    ("movss", "F3 0F 11 /r"): dict(add_reg={0: "xmm"}, why="SDM MOVSS xmm2/m32, xmm1 = F3 0F 11 /r (the record lists m32 only)"),
+    ("vandnps", "EVEX.xyz.66.W0 55 /r"): dict(pp="NP", mm="0F", why="SDM VANDNPS = EVEX.0F.W0 55 (record lacks the map, 66 is VANDNPD)"),
+}
+
+
 class Verdict(object):
     __slots__ = ("status", "clause", "detail")
+
     def __init__(self, status, clause="", detail=""):
         self.status, self.clause, self.detail = status, clause, detail
-def check(case, b, cands):
-    return Verdict("inconclusive", "", "stub")
+
+    def __repr__(self):
+        return "Verdict(%s,%s,%s)" % (self.status, self.clause, self.detail)
+
+
+class Mismatch(Exception):
+    def __init__(self, clause, detail, weight=0):
+        Exception.__init__(self, detail)
+        self.clause, self.detail, self.weight = clause, detail, weight
+
+
+class Inconclusive(Exception):
+    pass
+
+
+# ---------------------------------------------------------------------------------------------------------------
+# form preparation (cached on the form dict)
+# ---------------------------------------------------------------------------------------------------------------
+def _prep(f):
+    p = f.get("_dec")
+    if p is not None:
+        return p
+    op = dict(f["opcode"])
+    er = DB_ERRATA.get((f["name"], f["opcodeString"]))
+    if er:
+        for k, v in er.items():
+            if k == "add_reg":
+                for oi, kind_ in v.items():
+                    o_ = f["operands"][oi]
+                    if not any(a[0] == "reg" for a in o_["alts"]):
+                        o_["alts"] = [("reg", kind_)] + list(o_["alts"])
+            elif k != "why":
+                op[k] = v
+    # isa_x86.md, "Grouping": a legacy-encoded record of an rv/mv group takes the 66 prefix in its 16-bit member and
+    # REX.W in its 64-bit member; ry/my takes REX.W in its 64-bit member (x86.js applies this only to EVEX 'Pv/Wv')
+    if f["prefix"] in ("", "3DNOW") and f["groupPattern"] in ("rv", "ry"):
+        gi = f["groupIndex"]
+        if f["groupPattern"] == "rv":
+            if gi == 0 and "66" not in op["pp"]:
+                op["pp"] = "66" + (op["pp"] if op["pp"] != "NP" else "")
+            if gi == 2 and not op["w"]:
+                op["w"] = "W1"
+        elif gi == 1 and not op["w"]:
+            op["w"] = "W1"
+    toks0 = f["opcodeString"].split()
+    if f["prefix"] == "" and len(toks0) == 2 and toks0[0] in ("D8", "D9", "DA", "DB", "DC", "DD", "DE", "DF") and \
+            len(toks0[1]) == 2 and all(c in "0123456789ABCDEF" for c in toks0[1]) and not er:
+        # "D9 F2" / "D9 F3": x86.js takes the second byte of these x87 records for a mandatory prefix
+        op["mm"], op["byte"], op["pp"] = toks0[0], toks0[1], ""
+    p = dict(op=op)
+    # opcode byte(s)
+    byte = int(op["byte"], 16) if op["byte"] else None
+    mod, modr, modrm = op["mod"], op["modr"], op["modrm"]
+    p["modrm_opcode"] = None
+    if f["prefix"] in ("", "3DNOW") and mod == "11" and modr.isdigit() and modrm.isdigit() and byte is not None and \
+            byte == (0xC0 | int(modr) << 3 | int(modrm)):
+        # "0F AE E8" style record: x86.js stores the second byte both as opcode byte and as ModRM; the real opcode
+        # byte is the hex token before it
+        toks = [t for t in f["opcodeString"].split() if len(t) == 2 and all(c in "0123456789ABCDEF" for c in t)]
+        if len(toks) >= 2 and int(toks[-1], 16) == byte:
+            prev = toks[-2]
+            mm = op["mm"]
+            if mm.endswith(prev) and mm in ("0F", "0F38", "0F3A", "0F01"):
+                # the token before is part of the escape (0F 01 C8): mm="0F01" form; opcode byte stays, no modrm
+                p["modrm_opcode"] = None
+            else:
+                p["modrm_opcode"] = byte
+                byte = int(prev, 16)
+    p["byte"] = byte
+    # a record whose encoding scheme names ModRM roles (R / M letters) has a ModRM byte even when its opcode text
+    # lacks "/r" (the EVEX gather/scatter records do)
+    p["has_modrm"] = bool(mod or modr or modrm) or (f["encoding"] not in ("OP", "NONE") and any(c in f["encoding"] for c in "RM"))
+    # roles
+    ops = f["operands"]
+    roles = [None] * len(ops)
+    enc = f["encoding"]
+    elig = []
+    for i, o in enumerate(ops):
+        if o["implicit"]:
+            continue
+        a = o["alts"]
+        if not a:
+            continue
+        if a[0][0] in ("imm", "one", "rel", "dfv"):
+            roles[i] = "I" if a[0][0] in ("imm", "one") else ("J" if a[0][0] == "rel" else None)
+            continue
+        if a[0][0] == "consec":
+            roles[i] = "C"
+            continue
+        kinds = [x[0] for x in a]
+        if kinds == ["fixed"]:
+            roles[i] = "F"
+            continue
+        if "mem" in kinds:
+            flavor = a[kinds.index("mem")][2]
+            if flavor == "moff":
+                roles[i] = "A"
+                continue
+            if flavor == "regonly":
+                roles[i] = "X"
+                continue
+        elig.append(i)
+    letters = enc.replace("_", "") if enc not in ("OP", "NONE") else ""
+    if letters and len(letters) == len(elig) + 1 and "V" in letters:
+        letters = letters.replace("V", "", 1)       # two-operand record carrying the three-operand scheme name
+    if letters and len(letters) == len(elig):
+        lt = list(letters)
+        memcap = [any(x[0] == "mem" for x in ops[i]["alts"]) for i in elig]
+        memonly = [all(x[0] == "mem" for x in ops[i]["alts"]) for i in elig]
+        # the r/m operand is by definition the one that can be memory; a /digit takes the ModRM.reg field
+        if "M" in lt and "R" in lt:
+            ri_, mi_ = lt.index("R"), lt.index("M")
+            if memcap[ri_] and not memcap[mi_]:
+                lt[ri_], lt[mi_] = "M", "R"
+        if "R" in lt and "M" not in lt and modr.isdigit():
+            lt[lt.index("R")] = "M"
+        letters = "".join(lt)
+    if letters and len(letters) == len(elig):
+        for i, l in zip(elig, letters):
+            roles[i] = l
+    else:
+        # unlettered forms (OP/NONE) or a letter count that does not fit the operand list: the r/m operand is by
+        # definition the one that can be memory; +r forms put their register into the opcode byte
+        rest = []
+        for i in elig:
+            kinds = [x[0] for x in ops[i]["alts"]]
+            if "mem" in kinds and p["has_modrm"]:
+                roles[i] = "M"
+            else:
+                rest.append(i)
+        if op["ri"]:
+            if rest:
+                roles[rest.pop(0)] = "O"
+        have_m = "M" in roles
+        order = ["R", "V"] if have_m else ["M", "R", "V"]
+        if letters and not have_m and "M" not in letters:
+            order = list(letters)
+        if not p["has_modrm"]:
+            order = []
+        for i in rest:
+            if order:
+                roles[i] = order.pop(0)
+            else:
+                roles[i] = "?"
+    p["roles"] = roles
+    # immediates (bits) in operand order; is4 forms carry the S register in bits 7:4 of the single imm byte
+    imms = []
+    for i, o in enumerate(ops):
+        if roles[i] == "I" and o["alts"][0][0] == "imm":
+            imms.append((i, o["alts"][0][1], o["alts"][0][2]))
+    # byte order of several immediates = order of the ib/iw/id tokens in the opcode text (lcall: "9A id iw" for
+    # operands segment:imm16, offset:imm32)
+    tsz = [{"ib": 8, "iw": 16, "id": 32, "iq": 64}.get(t) for t in f["opcodeString"].split() if t in ("ib", "iw", "id", "iq")]
+    if len(imms) >= 2 and len(tsz) == len(imms) and sorted(tsz) == sorted(x[1] for x in imms) and tsz != [x[1] for x in imms]:
+        pool = list(imms)
+        imms = []
+        for z in tsz:
+            for x in pool:
+                if x[1] == z:
+                    imms.append(x)
+                    pool.remove(x)
+                    break
+    p["imms"] = imms
+    p["is4"] = "S" in roles
+    # operand size (for sign-extended immediates)
+    osz = 0
+    for o in ops:
+        if o["implicit"]:
+            continue
+        for a in o["alts"]:
+            if a[0] == "reg" and a[1] in ("r8", "r16", "r32", "r64"):
+                osz = osz or X.KIND_BITS[a[1]]
+            elif a[0] == "fixed" and a[1] in ("r8", "r8hi", "r16", "r32", "r64"):
+                osz = osz or X.KIND_BITS[a[1]]
+            elif a[0] == "mem" and a[1] in (1, 2, 4, 8):
+                osz = osz or a[1] * 8
+        if osz:
+            break
+    p["opsize"] = osz
+    f["_dec"] = p
+    return p
+
+
+# ---------------------------------------------------------------------------------------------------------------
+# operand binding: request <-> form operands
+# ---------------------------------------------------------------------------------------------------------------
+def _admits(o, alt, r):
+    t = r[0]
+    a = alt[0]
+    if t == "r":
+        if a == "reg":
+            return alt[1] == r[1] or (alt[1] == "r8" and r[1] == "r8hi")
+        if a == "fixed":
+            return alt[1] == r[1] and alt[2] == r[2]
+        if a == "consec":
+            return alt[1] == r[1]
+        return False
+    if t == "m":
+        if a != "mem":
+            return False
+        m = r[1]
+        size, flavor = alt[1], alt[2]
+        if m.bcst:
+            if not (o["bcstSize"] and o["bcstSize"] > 0 and o["memSize"] > 0):
+                return False
+            return m.size * 8 == o["bcstSize"] and m.bcst * o["bcstSize"] == o["memSize"]
+        if flavor == "vsib":
+            return m.index is not None and m.index[0] == o["vsibReg"]
+        if m.index is not None and m.index[0] in ("xmm", "ymm", "zmm"):
+            return False
+        if flavor == "moff":
+            if not (m.base == "abs" or m.base is None) or m.index is not None:
+                return False
+        return size == 0 or m.size == 0 or m.size == size
+    if t == "i":
+        return a in ("imm", "one") and (a == "imm" or r[1] == 1)
+    if t == "l":
+        return a == "rel"
+    return False
+
+
+def bind(f, case):
+    """Returns list (per form operand) of the requested operand or None (implicit operand not given), or None
+    when the request does not fit the form."""
+    ops = f["operands"]
+    req = case.ops
+    expl = [i for i, o in enumerate(ops) if not o["implicit"]]
+    for idxs in ((expl,) if len(expl) == len(ops) else (expl, list(range(len(ops))))):
+        if len(idxs) != len(req):
+            continue
+        out = [None] * len(ops)
+        ok = True
+        for i, r in zip(idxs, req):
+            o = ops[i]
+            if not any(_admits(o, a, r) for a in o["alts"]):
+                ok = False
+                break
+            out[i] = r
+        if ok:
+            return out
+    return None
+
+
+# ---------------------------------------------------------------------------------------------------------------
+# byte-level parsing
+# ---------------------------------------------------------------------------------------------------------------
+class Fields(object):
+    __slots__ = ("legacy", "seg", "p66", "p67", "pF2", "pF3", "pF0", "rex", "W", "R", "X", "B", "R2", "V2", "vvvv", "L", "pp",
+                 "map", "z", "b", "aaa", "kind", "pos", "fwait")
+
+
+def parse_prefixes(b, mode, want_kind, want_fwait):
+    """Parses legacy prefixes and the REX / VEX / XOP / EVEX prefix expected for a form of prefix kind
+    `want_kind` ('' legacy).  Returns Fields; raises Mismatch when the bytes do not have that shape."""
+    F = Fields()
+    F.legacy = []
+    F.seg = 0
+    F.p66 = F.p67 = F.pF2 = F.pF3 = F.pF0 = False
+    F.rex = None
+    F.W = F.R = F.X = F.B = F.R2 = F.V2 = 0
+    F.vvvv = 0
+    F.L = 0
+    F.pp = 0
+    F.map = 0
+    F.z = F.b = F.aaa = 0
+    F.kind = ""
+    F.fwait = False
+    n = len(b)
+    pos = 0
+    if want_fwait:
+        # FWAIT (9B) is an instruction of its own: prefixes of the following x87 instruction must come AFTER it
+        if pos < n and b[pos] == 0x9B:
+            F.fwait = True
+            pos += 1
+        else:
+            raise Mismatch("field-mismatch:fwait-position", "the record starts with 9B (FWAIT) but byte 0 is %02x: prefixes in "
+                           "front of FWAIT belong to FWAIT, not to the x87 instruction" % (b[0] if n else 0), 1)
+    while pos < n and b[pos] in LEGACY_PREFIXES:
+        c = b[pos]
+        F.legacy.append(c)
+        if c in SEG_PREFIX:
+            F.seg = SEG_PREFIX[c]
+        elif c == 0x66:
+            F.p66 = True
+        elif c == 0x67:
+            F.p67 = True
+        elif c == 0xF2:
+            F.pF2 = True
+        elif c == 0xF3:
+            F.pF3 = True
+        elif c == 0xF0:
+            F.pF0 = True
+        pos += 1
+    if pos >= n:
+        raise Mismatch("length", "only prefixes")
+    c = b[pos]
+    if want_kind in ("", "3DNOW"):
+        if mode == 64 and 0x40 <= c <= 0x4F:
+            F.rex = c
+            F.W, F.R, F.X, F.B = (c >> 3) & 1, (c >> 2) & 1, (c >> 1) & 1, c & 1
+            pos += 1
+        F.kind = ""
+    elif want_kind in ("VEX", "XOP"):
+        if want_kind == "VEX" and c == 0xC5:
+            if pos + 1 >= n:
+                raise Mismatch("length", "truncated VEX2")
+            p1 = b[pos + 1]
+            if mode == 32 and (p1 & 0xC0) != 0xC0:
+                raise Mismatch("field-mismatch:prefix-kind", "C5 is LDS here")
+            F.R = ((p1 >> 7) & 1) ^ 1
+            F.vvvv = ((p1 >> 3) & 15) ^ 15
+            F.L = (p1 >> 2) & 1
+            F.pp = p1 & 3
+            F.map = 1
+            F.W = None      # VEX2 has no W bit (acts as W0 / ignored)
+            pos += 2
+            F.kind = "VEX"
+        elif c == (0xC4 if want_kind == "VEX" else 0x8F):
+            if pos + 2 >= n:
+                raise Mismatch("length", "truncated VEX3/XOP")
+            p1, p2 = b[pos + 1], b[pos + 2]
+            if want_kind == "VEX" and mode == 32 and (p1 & 0xC0) != 0xC0:
+                raise Mismatch("field-mismatch:prefix-kind", "C4 is LES here")
+            if want_kind == "XOP" and (p1 & 0x1F) < 8:
+                raise Mismatch("field-mismatch:prefix-kind", "8F with map<8 is POP")
+            F.R = ((p1 >> 7) & 1) ^ 1
+            F.X = ((p1 >> 6) & 1) ^ 1
+            F.B = ((p1 >> 5) & 1) ^ 1
+            F.map = p1 & 0x1F
+            F.W = (p2 >> 7) & 1
+            F.vvvv = ((p2 >> 3) & 15) ^ 15
+            F.L = (p2 >> 2) & 1
+            F.pp = p2 & 3
+            pos += 3
+            F.kind = want_kind
+        else:
+            raise Mismatch("field-mismatch:prefix-kind", "expected a %s prefix, found byte %02x" % (want_kind, c))
+        if F.p66 or F.pF2 or F.pF3 or F.pF0:
+            raise Mismatch("field-mismatch:legacy-prefix-with-vex", "66/F2/F3/F0 in front of VEX/XOP is #UD")
+    elif want_kind == "EVEX":
+        if c != 0x62:
+            raise Mismatch("field-mismatch:prefix-kind", "expected EVEX (62), found byte %02x" % c)
+        if pos + 3 >= n:
+            raise Mismatch("length", "truncated EVEX")
+        p0, p1, p2 = b[pos + 1], b[pos + 2], b[pos + 3]
+        if mode == 32 and (p0 & 0xC0) != 0xC0:
+            raise Mismatch("field-mismatch:prefix-kind", "62 is BOUND here")
+        if p0 & 0x08:
+            raise Mismatch("field-mismatch:evex-reserved", "EVEX P0 bit 3 set (APX B4 / reserved)")
+        if not (p1 & 0x04):
+            raise Mismatch("field-mismatch:evex-reserved", "EVEX P1 bit 2 clear (reserved, must be 1)")
+        F.R = ((p0 >> 7) & 1) ^ 1
+        F.X = ((p0 >> 6) & 1) ^ 1
+        F.B = ((p0 >> 5) & 1) ^ 1
+        F.R2 = ((p0 >> 4) & 1) ^ 1
+        F.map = p0 & 7
+        F.W = (p1 >> 7) & 1
+        F.vvvv = ((p1 >> 3) & 15) ^ 15
+        F.pp = p1 & 3
+        F.z = (p2 >> 7) & 1
+        F.L = (p2 >> 5) & 3
+        F.b = (p2 >> 4) & 1
+        F.V2 = ((p2 >> 3) & 1) ^ 1
+        F.aaa = p2 & 7
+        pos += 4
+        F.kind = "EVEX"
+        if F.p66 or F.pF2 or F.pF3 or F.pF0:
+            raise Mismatch("field-mismatch:legacy-prefix-with-evex", "66/F2/F3/F0 in front of EVEX is #UD")
+    else:
+        raise Inconclusive("prefix kind %s not handled" % want_kind)
+    F.pos = pos
+    return F
+
+
+class EA(object):
+    """Decoded ModRM memory operand."""
+    __slots__ = ("asz", "base", "index", "scale", "disp", "rip", "has_sib", "disp_size")
+
+
+def parse_modrm(b, pos, mode, F, vsib, n_disp8):
+    """Returns (mod, reg, rm, EA or None, new pos).  n_disp8: callable giving the disp8 scale (EVEX) once mod/rm
+    are known (needs the b bit only)."""
+    n = len(b)
+    if pos >= n:
+        raise Mismatch("length", "ModRM byte missing")
+    m = b[pos]
+    pos += 1
+    mod, reg, rm = m >> 6, (m >> 3) & 7, m & 7
+    if mod == 3:
+        return mod, reg, rm, None, pos
+    ea = EA()
+    ea.rip = False
+    ea.has_sib = False
+    ea.base = ea.index = None
+    ea.scale = 1
+    ea.disp = 0
+    ea.disp_size = 0
+    asz = mode
+    if F.p67:
+        asz = 32 if mode == 64 else 16
+    ea.asz = asz
+    if asz == 16:
+        base, index = MOD16[rm]
+        ea.base, ea.index = base, index
+        if mod == 0 and rm == 6:
+            ea.base = None
+            ea.disp_size = 2
+        elif mod == 1:
+            ea.disp_size = 1
+        elif mod == 2:
+            ea.disp_size = 2
+    else:
+        if rm == 4:
+            if pos >= n:
+                raise Mismatch("length", "SIB byte missing")
+            s = b[pos]
+            pos += 1
+            ea.has_sib = True
+            ss, idx, bs = s >> 6, (s >> 3) & 7, s & 7
+            ea.scale = 1 << ss
+            index = idx | (F.X << 3)
+            if vsib:
+                index |= F.V2 << 4
+                ea.index = index
+            elif index != 4:
+                ea.index = index
+            else:
+                ea.scale = 1
+            if bs == 5 and mod == 0:
+                ea.base = None
+                ea.disp_size = 4
+            else:
+                ea.base = bs | (F.B << 3)
+        elif rm == 5 and mod == 0:
+            ea.disp_size = 4
+            if mode == 64:
+                ea.rip = True
+        else:
+            ea.base = rm | (F.B << 3)
+        if mod == 1:
+            ea.disp_size = 1
+        elif mod == 2:
+            ea.disp_size = 4
+    if ea.disp_size:
+        if pos + ea.disp_size > n:
+            raise Mismatch("length", "displacement truncated")
+        v = int.from_bytes(b[pos:pos + ea.disp_size], "little", signed=True)
+        pos += ea.disp_size
+        if ea.disp_size == 1:
+            v *= n_disp8()
+        ea.disp = v
+    return mod, reg, rm, ea, pos
+
+
+# ---------------------------------------------------------------------------------------------------------------
+# EVEX disp8*N (SDM vol.2 2.7.5, tables 2-34 and 2-35)
+# ---------------------------------------------------------------------------------------------------------------
+def disp8_scale(f, F, mem_form_op):
+    """N for the memory operand of EVEX form f given the decoded prefix fields (b, W, L'L).  The SDM tables amount
+    to "N = size of the memory access"; a record whose tuple type contradicts its own memory operand size is
+    inconsistent and makes the leg inconclusive for disp8 cases."""
+    n = _disp8_scale(f, F, mem_form_op)
+    msz = mem_form_op["memSize"] if mem_form_op["memSize"] and mem_form_op["memSize"] > 0 else 0
+    if not F.b and msz and not mem_form_op["vsibReg"] and n * 8 != msz:
+        raise Inconclusive("tuple type '%s' gives disp8*%d but the record's memory operand is m%d" % (f["tupleType"], n, msz))
+    return n
+
+
+def _disp8_scale(f, F, mem_form_op):
+    tt = f["tupleType"]
+    vl = 128 << F.L if F.L < 3 else None
+    W = F.W
+    if vl is None:
+        raise Mismatch("field-mismatch:evex-ll", "EVEX.L'L = 11 with a memory operand")
+    esz = f["elementSize"] if f["elementSize"] and f["elementSize"] > 0 else 0
+    msz = mem_form_op["memSize"] if mem_form_op["memSize"] and mem_form_op["memSize"] > 0 else 0
+    if tt in ("fv", "hv", "qv"):
+        if F.b:
+            e = esz or (64 if W else 32)
+            return e // 8
+        return vl // {"fv": 8, "hv": 16, "qv": 32}[tt]
+    if tt in ("fvm", "fm"):
+        return vl // 8
+    if tt == "hvm":
+        return vl // 16
+    if tt == "qvm":
+        return vl // 32
+    if tt == "ovm":
+        return vl // 64
+    if tt == "m128":
+        return 16
+    if tt == "movddup":
+        return {128: 8, 256: 32, 512: 64}[vl]
+    if tt in ("t1s", "t1"):
+        if mem_form_op["vsibReg"]:
+            return 8 if W else 4
+        if msz in (8, 16, 32, 64):
+            # input size 8 -> 1, 16 -> 2, 32 -> 4, 64 -> 8
+            return msz // 8
+        raise Inconclusive("tuple1-scalar record without element size (memory operand m%d)" % msz)
+    if tt == "t1f":
+        if msz in (32, 64):
+            return msz // 8
+        raise Inconclusive("t1f without a 32/64-bit memory operand")
+    if tt == "t2":
+        return 16 if W else 8
+    if tt == "t4":
+        return 32 if W else 16
+    if tt == "t8":
+        return 32
+    raise Inconclusive("no disp8*N rule for tuple type '%s'" % tt)
+
+
+# ---------------------------------------------------------------------------------------------------------------
+# comparisons
+# ---------------------------------------------------------------------------------------------------------------
+def _expect_reg(role, r, num, F, mode, what):
+    """requested register r = ('r',kind,id) against the decoded field number."""
+    kind, rid = r[1], r[2]
+    clause = "operand-mismatch:reg:" + role.lower()
+    if kind == "r8hi":
+        if F.kind != "" or F.rex is not None:
+            raise Mismatch("operand-mismatch:reg:high-byte-with-rex", "%s: %s requested but a REX/VEX prefix is present (the field then means spl..dil)" % (what, X.reg_name(kind, rid)))
+        exp = rid + 4
+        if rid > 3:
+            exp = -1
+    elif kind == "r8":
+        exp = rid
+        if 4 <= rid <= 7 and F.kind == "" and F.rex is None:
+            raise Mismatch("operand-mismatch:reg:low-byte-without-rex", "%s: %s requested but there is no REX prefix (the field then means ah..bh)" % (what, X.reg_name(kind, rid)))
+    elif kind == "sreg":
+        exp = rid - 1
+        if not (1 <= rid <= 6):
+            exp = -1
+    else:
+        exp = rid
+    if exp != num:
+        raise Mismatch(clause, "%s: requested %s (id %d), the %s field holds %d" % (
+            what, X.reg_name(kind, rid) or ("%s#%d" % (kind, rid)), rid, role, num))
+
+
+def _default_seg(base, asz):
+    # SDM vol.1 3.7.4: SS for addresses based on (E/R)SP/(E/R)BP, DS otherwise
+    return 3 if base in (4, 5) else 4
+
+
+def _eff_seg(seg, base, mode, asz):
+    s = seg if seg else _default_seg(base, asz)
+    if mode == 64 and s in (1, 2, 3, 4):
+        return 0
+    return s
+
+
+def _wrap(v, bits):
+    v &= (1 << bits) - 1
+    return v
+
+
+_RELOCATED = False
+
+
+def _compare_mem(m, ea, F, mode, L, case, what, result_bits=64):
+    """requested Mem m against the decoded EA.  result_bits < 64: only that many low bits of the address are
+    observable (LEA into a narrower register)."""
+    asz = ea.asz
+    # --- requested address size
+    req_asz = None
+    for r in (m.base, m.index):
+        if isinstance(r, tuple) and r[0] in ("r16", "r32", "r64"):
+            k = X.KIND_BITS[r[0]]
+            if req_asz is not None and req_asz != k:
+                raise Mismatch("operand-mismatch:mem:mixed-address-size", "%s: base and index registers of different width accepted" % what)
+            req_asz = k
+    if isinstance(m.base, tuple) and m.base[0] in ("rip", "label"):
+        req_asz = 64 if mode == 64 else 32
+    if req_asz is not None and req_asz != asz:
+        raise Mismatch("operand-mismatch:mem:address-size", what + ": requested %d-bit addressing, bytes use %d-bit" % (req_asz, asz))
+    # --- base / index / scale
+    rb = m.base
+    if rb == "abs":
+        rb = None
+    if isinstance(rb, tuple) and rb[0] in ("rip", "label"):
+        if rb[0] == "rip" and mode == 32:
+            raise Mismatch("operand-mismatch:mem:rip", what + ": rip-relative address accepted in 32-bit mode")
+        if not ea.rip:
+            raise Mismatch("operand-mismatch:mem:rip", what + ": requested rip-relative, bytes are not")
+        if m.index is not None:
+            raise Mismatch("operand-mismatch:mem:rip", what + ": rip-relative with index accepted")
+        if rb[0] == "rip":
+            exp = m.disp
+        else:
+            back = _label_back(case, rb[1])
+            if back is None:
+                raise Inconclusive("label not bound")
+            exp = back + m.disp - L
+        if _wrap(exp, 32) != _wrap(ea.disp, 32) or not (-(1 << 31) <= exp < (1 << 31)):
+            raise Mismatch("operand-mismatch:mem:disp", what + ": rip-relative displacement %d expected, %d encoded" % (exp, ea.disp))
+        dbase = None
+    elif _RELOCATED and (rb is None) and m.index is None:
+        # absolute address completed by a relocation: rip-relative or absolute form, value unknown here
+        if ea.base is not None or ea.index is not None:
+            raise Mismatch("operand-mismatch:mem:base-index", what + ": absolute address requested, bytes use registers")
+        dbase = None
+    else:
+        if ea.rip:
+            raise Mismatch("operand-mismatch:mem:rip", what + ": bytes are rip-relative, the request is not")
+        want_b = rb[1] if rb is not None else None
+        want_i = m.index[1] if m.index is not None else None
+        want_s = (1 << m.shift) if m.index is not None else 1
+        got = (ea.base, ea.index, ea.scale if ea.index is not None else 1)
+        ok = got == (want_b, want_i, want_s)
+        vs = m.index is not None and m.index[0] in ("xmm", "ymm", "zmm")
+        if not ok and not vs:
+            # equivalent forms: index*1 <-> base, base/index exchange at scale 1 (same default segment only)
+            def segclass(b):
+                return 3 if b in (4, 5) else 4
+            alts = []
+            if want_i is not None and want_s == 1 and want_b is None:
+                alts.append((want_i, None, 1, None, want_i))
+            if want_i is None and want_b is not None:
+                alts.append((None, want_b, 1, want_b, None))
+            if want_i is not None and want_b is not None and want_s == 1:
+                alts.append((want_i, want_b, 1, want_b, want_i))
+            for ab, ai, asc, ob, nb in alts:
+                if got == (ab, ai, asc):
+                    if mode == 64 or m.seg or segclass(ob) == segclass(nb) or asz == 16:
+                        ok = True
+                        want_b = ab
+        if not ok:
+            raise Mismatch("operand-mismatch:mem:base-index", what + ": requested base %s index %s scale %d, bytes have base %s index %s scale %d" % (
+                rb, m.index, want_s, ea.base, ea.index, got[2]))
+        # --- displacement / absolute address
+        if rb is None and m.index is None:
+            A = m.disp & 0xFFFFFFFFFFFFFFFF
+            if asz == 64:
+                enc = ea.disp & 0xFFFFFFFFFFFFFFFF
+            else:
+                enc = ea.disp & ((1 << asz) - 1)
+            if mode == 32:
+                A &= 0xFFFFFFFF
+            if result_bits < 64:
+                A &= (1 << result_bits) - 1
+                enc &= (1 << result_bits) - 1
+            if enc != A:
+                raise Mismatch("operand-mismatch:mem:absolute-address", what + ": requested absolute address %#x, bytes address %#x (%d-bit addressing)" % (A, enc, asz))
+        else:
+            if _wrap(m.disp, asz) != _wrap(ea.disp, asz):
+                raise Mismatch("operand-mismatch:mem:disp", what + ": requested displacement %d, bytes encode %d" % (m.disp, ea.disp))
+        dbase = ea.base
+    # --- segment
+    want_base_for_seg = rb[1] if isinstance(rb, tuple) and rb[0] in ("r16", "r32", "r64") else None
+    if asz == 16:
+        # default segment by table row: rows with BP use SS
+        want_base_for_seg = 5 if (5 in ((rb[1] if isinstance(rb, tuple) else None), (m.index[1] if m.index else None))) else 0
+        dbase = 5 if (ea.base == 5 or ea.index == 5) else 0
+    if _eff_seg(m.seg, want_base_for_seg, mode, asz) != _eff_seg(F.seg, dbase, mode, asz):
+        raise Mismatch("operand-mismatch:mem:segment", what + ": requested segment %s, bytes carry segment prefix %s" % (
+            X._SEG[m.seg] if m.seg < 7 else m.seg, X._SEG[F.seg]))
+
+
+def _label_back(case, n):
+    """Offset of label n relative to the instruction start when bound before it, or ('fwd', k) after it."""
+    back = 0
+    for p in reversed(case.pre):
+        if p.startswith("pad="):
+            back += int(p[4:])
+        elif p == "bind=%d" % n:
+            return -back
+    return None
+
+
+def _label_target(case, n, L):
+    b = _label_back(case, n)
+    if b is not None:
+        return b
+    fwd = 0
+    for p in case.post:
+        if p.startswith("pad="):
+            fwd += int(p[4:])
+        elif p == "bind=%d" % n:
+            return L + fwd
+    return None
+
+
+def _imm_ok(v, field, bits, sign, opsize):
+    """Does the encoded `field` (unsigned, `bits` wide) denote the requested value v?"""
+    mask = (1 << bits) - 1
+    if sign == "signed":
+        s = field - (1 << bits) if field >> (bits - 1) else field
+        sizes = [opsize] if opsize else [16, 32, 64]
+        for osz in sizes:
+            osz = max(osz, bits)
+            if (s - v) % (1 << osz) == 0 and -(1 << (osz - 1)) <= v < (1 << osz):
+                return True
+        return False
+    if (v & mask) != field:
+        return False
+    return -(1 << (bits - 1)) <= v < (1 << bits)
+
+
+# ---------------------------------------------------------------------------------------------------------------
+# one candidate
+# ---------------------------------------------------------------------------------------------------------------
+def _check_form(f, case, b, bound, stage):
+    mode = case.mode
+    p = _prep(f)
+    op = p["op"]
+    L = len(b)
+    kind = f["prefix"]
+    if kind == "REX2":
+        raise Inconclusive("REX2 form")
+    pp = op["pp"]
+    want_fwait = pp == "9B"
+    F = parse_prefixes(b, mode, kind, want_fwait)
+    pos = F.pos
+    opts = case.opts
+    stage[0] = 1
+    # ---- escape bytes / map
+    mm = op["mm"]
+    if kind in ("", "3DNOW"):
+        esc = {"": [], "0F": [0x0F], "0F38": [0x0F, 0x38], "0F3A": [0x0F, 0x3A], "0F01": [0x0F, 0x01]}.get(mm)
+        if esc is None:
+            if len(mm) == 2:
+                esc = [int(mm, 16)]          # x87: D8..DF escape
+            else:
+                raise Inconclusive("map %s" % mm)
+        if kind == "3DNOW":
+            esc = [0x0F, 0x0F]
+        for e in esc:
+            if pos >= L or b[pos] != e:
+                raise Mismatch("field-mismatch:opcode-map", "escape byte %02x expected at offset %d in %s" % (e, pos, b.hex()))
+            pos += 1
+    else:
+        if MAP_NUM.get(mm) != F.map:
+            raise Mismatch("field-mismatch:opcode-map", "map %s expected, prefix says %d" % (mm, F.map))
+    stage[0] = 2
+    # ---- mandatory prefix
+    rep_f3 = bool(opts & (OPT["rep"] | OPT["xrelease"]))
+    rep_f2 = bool(opts & (OPT["repne"] | OPT["xacquire"]))
+    if kind in ("", "3DNOW"):
+        want66 = "66" in pp
+        wantF2 = pp.endswith("F2")
+        wantF3 = pp.endswith("F3")
+        if F.p66 != want66:
+            raise Mismatch("field-mismatch:66-prefix", "operand-size prefix 66 %s but the record says pp='%s'" % ("present" if F.p66 else "missing", pp))
+        if F.pF2 != (wantF2 or rep_f2):
+            raise Mismatch("field-mismatch:f2-prefix", "F2 %s (record pp='%s', requested options %#x)" % ("present" if F.pF2 else "missing", pp, opts))
+        if F.pF3 != (wantF3 or rep_f3):
+            raise Mismatch("field-mismatch:f3-prefix", "F3 %s (record pp='%s', requested options %#x)" % ("present" if F.pF3 else "missing", pp, opts))
+        if (rep_f2 or rep_f3) and not f["prefixes"]:
+            raise Mismatch("field-mismatch:rep-prefix", "rep/repne/xacquire/xrelease accepted on a form that lists no such prefix")
+    else:
+        if PP_NUM.get(pp, 0) != F.pp:
+            raise Mismatch("field-mismatch:pp", "pp %s expected, prefix has %d" % (pp or "NP", F.pp))
+    amd_cr8 = False
+    if mode == 32 and F.pF0 and f["name"] == "mov" and not (opts & OPT["lock"]):
+        # AMD64 APM vol.3 (MOV CRn): in legacy mode CR8 is reached as "LOCK MOV CR0"
+        amd_cr8 = any(r is not None and r[0] == "r" and r[1] == "creg" and r[2] == 8 for r in bound)
+    if F.pF0 != bool(opts & OPT["lock"]) and not amd_cr8:
+        raise Mismatch("field-mismatch:lock-prefix", "LOCK prefix %s" % ("present but not requested" if F.pF0 else "requested but missing"))
+    if (opts & OPT["lock"]) and not any(x in f["prefixes"] for x in ("lock", "ilock")):
+        raise Mismatch("field-mismatch:lock-prefix", "LOCK accepted on a form that does not list it")
+    stage[0] = 3
+    # ---- W
+    w = op["w"]
+    if kind in ("", "3DNOW"):
+        if w == "W1" and F.W != 1:
+            lea_zx = (f["name"] == "lea" and len(bound) == 2 and bound[1] is not None and bound[1][0] == "m" and
+                      bound[1][1].base in (None, "abs") and bound[1][1].index is None and 0 <= bound[1][1].disp < (1 << 32))
+            # xchg rax,rax == nop;  lea r64,[abs < 2^32] == lea r32,[abs] (the 32-bit result is zero-extended)
+            if not (f["name"] == "xchg" and all(r == ("r", "r64", 0) for r in bound if r is not None)) and not lea_zx:
+                raise Mismatch("field-mismatch:rex.w", "REX.W required by the record, not set")
+        if w != "W1" and w != "WIG" and F.W == 1:
+            raise Mismatch("field-mismatch:rex.w", "REX.W set but the record (%s) has no REX.W" % f["opcodeString"])
+    else:
+        if w == "W1" and F.W != 1:
+            raise Mismatch("field-mismatch:w", "W1 expected")
+        if w == "W0" and F.W not in (0, None):
+            raise Mismatch("field-mismatch:w", "W0 expected")
+    stage[0] = 4
+    # ---- opcode byte
+    if pos >= L:
+        raise Mismatch("length", "opcode byte missing")
+    ob = b[pos]
+    pos += 1
+    oreg = None
+    if op["ri"]:
+        if (ob & 0xF8) != (p["byte"] & 0xF8):
+            raise Mismatch("field-mismatch:opcode", "opcode %02x+r expected, found %02x" % (p["byte"], ob))
+        oreg = (ob & 7) | (F.B << 3)
+    elif kind == "3DNOW":
+        pos -= 1            # the 3DNow! opcode is the suffix byte after the operands
+    elif ob != p["byte"]:
+        raise Mismatch("field-mismatch:opcode", "opcode %02x expected, found %02x" % (p["byte"], ob))
+    stage[0] = 5
+    # ---- which requested operand is the memory operand; is the ModRM form register or memory
+    roles = p["roles"]
+    ops = f["operands"]
+    mem_req = None
+    mem_fo = None
+    for i, r in enumerate(bound):
+        if r is not None and r[0] == "m" and roles[i] == "M":
+            mem_req, mem_fo = r[1], ops[i]
+    mod = reg = rm = None
+    ea = None
+    if p["has_modrm"] or kind == "3DNOW":
+        vsib = bool(f["vsibReg"])
+
+        def n8():
+            if kind != "EVEX":
+                return 1
+            if mem_fo is None:
+                raise Inconclusive("memory form without a memory operand in the record")
+            return disp8_scale(f, F, mem_fo)
+        mod, reg, rm, ea, pos = parse_modrm(b, pos, mode, F, vsib, n8)
+        if p["modrm_opcode"] is not None:
+            if (0xC0 | reg << 3 | rm) != p["modrm_opcode"] or mod != 3:
+                raise Mismatch("field-mismatch:modrm-opcode", "second opcode byte %02x expected" % p["modrm_opcode"])
+        else:
+            if op["mod"] == "11" and mod != 3:
+                raise Mismatch("field-mismatch:modrm.mod", "register form (mod=11) required")
+            if op["mod"] == "!(11)" and mod == 3:
+                raise Mismatch("field-mismatch:modrm.mod", "memory form required")
+            if op["modr"].isdigit() and reg != int(op["modr"]):
+                raise Mismatch("field-mismatch:modrm.reg", "/%s expected, ModRM.reg is %d" % (op["modr"], reg))
+            if op["modrm"].isdigit() and rm != int(op["modrm"]):
+                raise Mismatch("field-mismatch:modrm.rm", "ModRM.rm %s expected" % op["modrm"])
+    if (ea is not None) != (mem_req is not None):
+        if mem_req is not None:
+            raise Mismatch("operand-mismatch:rm", "memory operand requested, ModRM encodes a register")
+        if not any(r is not None and r[0] == "m" for r in bound):
+            raise Mismatch("operand-mismatch:rm", "ModRM encodes memory, a register operand was requested")
+    stage[0] = 6
+    # ---- address-size prefix
+    if F.p67 and ea is None:
+        has_implicit_mem = any(roles[i] in ("X", "A") for i in range(len(ops))) or any(o["implicit"] and o["mem"] for o in ops)
+        if not op["_67h"] and not has_implicit_mem:
+            # no address to size: harmless for the CPU, nothing to compare
+            pass
+    if op["_67h"] and not F.p67:
+        raise Mismatch("field-mismatch:67-prefix", "the record requires the address-size prefix 67")
+    # ---- L
+    l = op["l"]
+    bcst_req = mem_req.bcst if mem_req is not None else 0
+    er_req = bool(opts & OPT["er"])
+    sae_req = bool(opts & OPT["sae"])
+    if kind in ("VEX", "XOP", "EVEX"):
+        want_l = None
+        if l == "128":
+            want_l = 0
+        elif l == "256":
+            want_l = 1
+        elif l == "512":
+            want_l = 2
+        elif l in ("xy", "xyz"):
+            want_l = f["groupIndex"]
+        if kind == "EVEX" and F.b and ea is None:
+            # static rounding / SAE: L'L is the rounding control, not a length
+            if er_req:
+                rc = {0: 0, OPT["rd"]: 1, OPT["ru"]: 2, OPT["rz"]: 3}[opts & OPT["rz"]]
+                if F.L != rc:
+                    raise Mismatch("field-mismatch:evex-rc", "rounding mode %d requested, EVEX.L'L is %d" % (rc, F.L))
+        elif want_l is not None and F.L != want_l:
+            raise Mismatch("field-mismatch:l", "vector length L=%d expected (%s), prefix has %d" % (want_l, l, F.L))
+    # ---- EVEX decorations
+    if kind == "EVEX":
+        kreq = case.extra[1] if (case.extra is not None and case.extra[0] == "k") else 0
+        if case.extra is not None and case.extra[0] != "k":
+            raise Mismatch("field-mismatch:extra-reg", "non-mask extra register accepted on an EVEX form")
+        if F.aaa != kreq:
+            raise Mismatch("field-mismatch:evex-aaa", "mask k%d requested, EVEX.aaa is %d" % (kreq, F.aaa))
+        if kreq and not f["kmask"]:
+            raise Mismatch("field-mismatch:evex-aaa", "masking accepted on a form without {k}")
+        zreq = 1 if opts & OPT["z"] else 0
+        if F.z != zreq:
+            raise Mismatch("field-mismatch:evex-z", "zeroing %s, EVEX.z is %d" % ("requested" if zreq else "not requested", F.z))
+        if zreq and not f["zmask"]:
+            raise Mismatch("field-mismatch:evex-z", "{z} accepted on a form without zeroing")
+        want_b = 1 if (bcst_req or er_req or sae_req) else 0
+        if F.b != want_b:
+            raise Mismatch("field-mismatch:evex-b", "EVEX.b is %d, request implies %d (broadcast %s, er %s, sae %s)" % (F.b, want_b, bcst_req, er_req, sae_req))
+        if (er_req or sae_req) and ea is not None:
+            raise Mismatch("field-mismatch:evex-b", "{er}/{sae} accepted with a memory operand")
+        if er_req and not f["er"]:
+            raise Mismatch("field-mismatch:evex-b", "{er} accepted on a form without embedded rounding")
+        if sae_req and not f["sae"]:
+            raise Mismatch("field-mismatch:evex-b", "{sae} accepted on a form without it")
+    else:
+        if case.extra is not None and case.extra[0] == "k":
+            raise Mismatch("field-mismatch:mask", "mask register accepted on a non-EVEX form")
+        if opts & (OPT["z"] | OPT["er"] | OPT["sae"]):
+            raise Mismatch("field-mismatch:decoration", "{z}/{er}/{sae} accepted on a non-EVEX form")
+        if bcst_req:
+            raise Mismatch("field-mismatch:broadcast", "broadcast accepted on a non-EVEX form")
+    stage[0] = 7
+    # ---- operands
+    used_v = False
+    imm_ops = []
+    is4_reg = None
+    for i, r in enumerate(bound):
+        role = roles[i]
+        o = ops[i]
+        if r is None:
+            continue
+        what = "op%d" % i
+        if role == "R":
+            if r[0] != "r":
+                raise Mismatch("operand-mismatch:kind", what + ": non-register in ModRM.reg role")
+            num = reg | (F.R << 3)
+            if kind == "EVEX":
+                num |= F.R2 << 4
+            if amd_cr8 and r[1] == "creg":
+                num |= 8
+            _expect_reg("ModRM.reg", r, num, F, mode, what)
+        elif role == "M":
+            if r[0] == "r":
+                if ea is not None:
+                    raise Mismatch("operand-mismatch:kind", what + ": register requested, ModRM encodes memory")
+                num = rm | (F.B << 3)
+                if kind == "EVEX" and r[1] in ("xmm", "ymm", "zmm"):
+                    num |= F.X << 4
+                _expect_reg("ModRM.rm", r, num, F, mode, what)
+            elif r[0] == "m":
+                if ea is None:
+                    raise Mismatch("operand-mismatch:kind", what + ": memory requested, ModRM encodes a register")
+                rb = 64
+                if f["name"] == "lea" and bound[0] is not None and bound[0][0] == "r":
+                    rb = X.KIND_BITS.get(bound[0][1], 64)
+                    if rb == 64 and kind == "" and F.W != 1:
+                        rb = 32
+                _compare_mem(r[1], ea, F, mode, L, case, what, rb)
+            else:
+                raise Mismatch("operand-mismatch:kind", what + ": bad operand in r/m role")
+        elif role == "V":
+            if r[0] != "r":
+                raise Mismatch("operand-mismatch:kind", what + ": non-register in vvvv role")
+            if kind not in ("VEX", "XOP", "EVEX"):
+                raise Inconclusive("V role on a legacy form")
+            num = F.vvvv | ((F.V2 << 4) if kind == "EVEX" else 0)
+            if mode == 32:
+                num &= 7 | (num & 0x10)
+            _expect_reg("vvvv", r, num, F, mode, what)
+            used_v = True
+        elif role == "S":
+            if r[0] != "r":
+                raise Mismatch("operand-mismatch:kind", what + ": non-register in is4 role")
+            is4_reg = (r, what)
+        elif role == "O":
+            if r[0] != "r":
+                raise Mismatch("operand-mismatch:kind", what + ": non-register in opcode+r role")
+            _expect_reg("opcode+r", r, oreg, F, mode, what)
+        elif role == "F":
+            a = o["alts"][0]
+            if r != ("r", a[1], a[2]):
+                raise Mismatch("operand-mismatch:kind", what + ": fixed register %s expected" % o["data"])
+        elif role == "C":
+            lead = None
+            for j in range(i - 1, -1, -1):
+                if bound[j] is not None and bound[j][0] == "r":
+                    lead = bound[j]
+                    break
+            if lead is None or r[2] != lead[2] + o["alts"][0][2]:
+                raise Mismatch("operand-mismatch:kind", what + ": register pair not consecutive")
+        elif role == "I":
+            imm_ops.append((i, r))
+        elif role == "J":
+            pass
+        elif role == "A":
+            pass
+        elif role == "X":
+            # implicit address operand (string instructions ...): fixed base register, segment and address size
+            m = r[1]
+            rn = o["memRegOnly"]
+            if rn in X.Z_REGS:
+                want_id = X.Z_REGS[rn]
+                base = m.base
+                if not (isinstance(base, tuple) and base[0] in ("r16", "r32", "r64") and base[1] == want_id and m.index is None and m.disp == 0):
+                    raise Mismatch("operand-mismatch:mem:implicit-address", what + ": implicit address must be [%s], %r accepted" % (rn, m))
+                asz = mode if not F.p67 else (32 if mode == 64 else 16)
+                if X.KIND_BITS[base[0]] != asz:
+                    raise Mismatch("operand-mismatch:mem:address-size", "%s: %s requested, bytes use %d-bit addressing" % (what, X.reg_name(*base), asz))
+                fixed_seg = o["memSegment"] == "es"
+                if fixed_seg:
+                    if m.seg not in (0, 1):
+                        raise Mismatch("operand-mismatch:mem:segment-es-fixed", what + ": es:[%s] cannot be overridden, segment %d accepted" % (rn, m.seg))
+                else:
+                    if _eff_seg(m.seg, None, mode, asz) != _eff_seg(F.seg, None, mode, asz):
+                        raise Mismatch("operand-mismatch:mem:segment", what + ": segment %s requested, prefix %s present" % (X._SEG[m.seg], X._SEG[F.seg]))
+            elif rn in ("r32", "r64"):
+                # movdir64b / enqcmd: the destination address is held by the register in ModRM.reg, its width is
+                # the address size of the instruction
+                base = m.base
+                if not (isinstance(base, tuple) and base[0] in ("r16", "r32", "r64") and m.index is None and m.disp == 0):
+                    raise Mismatch("operand-mismatch:mem:implicit-address", what + ": destination must be a plain [register], %r accepted" % (m,))
+                asz = mode if not F.p67 else (32 if mode == 64 else 16)
+                if X.KIND_BITS[base[0]] != asz:
+                    raise Mismatch("operand-mismatch:mem:address-size", "%s: %s requested, bytes use %d-bit addressing" % (what, X.reg_name(*base), asz))
+                if reg is None:
+                    raise Inconclusive("register-addressed operand without ModRM")
+                if op["modr"].isdigit():
+                    # /digit occupies ModRM.reg: the address register is ModRM.rm with mod=11 (umonitor)
+                    if mod != 3:
+                        raise Mismatch("field-mismatch:modrm.mod", "register form (mod=11) required")
+                    _expect_reg("ModRM.rm", ("r", base[0], base[1]), rm | (F.B << 3), F, mode, what)
+                else:
+                    _expect_reg("ModRM.reg", ("r", base[0], base[1]), reg | (F.R << 3), F, mode, what)
+                if m.seg not in (0, 1):
+                    raise Mismatch("operand-mismatch:mem:segment-es-fixed", what + ": es:[reg] cannot be overridden, segment %d accepted" % m.seg)
+            else:
+                raise Inconclusive("implicit address operand %s" % rn)
+        elif role is None:
+            pass
+        else:
+            raise Inconclusive("no role for operand %d (%s)" % (i, o["data"]))
+    if kind in ("VEX", "XOP", "EVEX") and not used_v:
+        if F.vvvv != 0 and not (mode == 32 and (F.vvvv & 7) == 0):
+            raise Mismatch("field-mismatch:vvvv", "vvvv must be 1111b when unused, decoded register %d" % F.vvvv)
+        if kind == "EVEX" and F.V2 and not f["vsibReg"]:
+            raise Mismatch("field-mismatch:evex-v'", "EVEX.V' must be 1 when unused")
+    if kind == "EVEX":
+        # R' / X extension bits on operands that cannot use them
+        for i, r in enumerate(bound):
+            if r is None or r[0] != "r":
+                continue
+            if roles[i] == "R" and r[1] not in ("xmm", "ymm", "zmm") and F.R2:
+                raise Mismatch("field-mismatch:evex-r'", "EVEX.R' set with a %s register in ModRM.reg" % r[1])
+    stage[0] = 8
+    # ---- moffs
+    for i, r in enumerate(bound):
+        if roles[i] == "A" and r is not None:
+            asz = mode if not F.p67 else (32 if mode == 64 else 16)
+            nb = asz // 8
+            if pos + nb > L:
+                raise Mismatch("length", "moffs truncated")
+            v = int.from_bytes(b[pos:pos + nb], "little")
+            pos += nb
+            m = r[1]
+            A = m.disp & ((1 << 64) - 1)
+            if mode == 32:
+                A &= 0xFFFFFFFF
+            if v != A and not _RELOCATED:
+                raise Mismatch("operand-mismatch:mem:absolute-address", "op%d: " % i + "moffs %#x expected, %#x encoded (%d-bit)" % (A, v, asz))
+            if _eff_seg(m.seg, None, mode, asz) != _eff_seg(F.seg, None, mode, asz):
+                raise Mismatch("operand-mismatch:mem:segment", "op%d: " % i + "segment mismatch on moffs")
+    # ---- relative displacement
+    for i, r in enumerate(bound):
+        if roles[i] == "J" and r is not None:
+            nb = f["rel"] or (ops[i]["rel"] // 8)
+            if pos + nb > L:
+                raise Mismatch("length", "rel%d truncated" % (nb * 8))
+            v = int.from_bytes(b[pos:pos + nb], "little", signed=True)
+            pos += nb
+            t = _label_target(case, r[1], L)
+            if t is None:
+                raise Inconclusive("unbound label")
+            if v != t - L:
+                raise Mismatch("operand-mismatch:rel", "op%d: " % i + "rel%d %d expected (target %+d from start, length %d), %d encoded" % (nb * 8, t - L, t, L, v))
+    stage[0] = 9
+    # ---- immediates
+    if p["is4"]:
+        if pos >= L:
+            raise Mismatch("length", "is4 byte missing")
+        v = b[pos]
+        pos += 1
+        r, what = is4_reg if is4_reg else (None, None)
+        if r is not None:
+            num = v >> 4
+            if mode == 32:
+                num &= 7
+            _expect_reg("imm8[7:4]", r, num, F, mode, what)
+        lo = v & 15
+        i4 = [x for x in imm_ops if ops[x[0]]["alts"][0][0] == "imm" and ops[x[0]]["alts"][0][1] == 4]
+        if i4:
+            if (i4[0][1][1] & 15) != lo or not (-8 <= i4[0][1][1] < 16):
+                raise Mismatch("operand-mismatch:imm", "op%d: " % i4[0][0] + "imm4 %d requested, %d encoded" % (i4[0][1][1], lo))
+    else:
+        total = 0
+        order = [x[0] for x in p["imms"]]
+        imm_ops.sort(key=lambda x: order.index(x[0]) if x[0] in order else 99)
+        for i, r in imm_ops:
+            a = ops[i]["alts"][0]
+            if a[0] == "one":
+                if r[1] != 1:
+                    raise Mismatch("operand-mismatch:imm", "op%d: " % i + "constant 1 expected")
+                continue
+            bits, sign = a[1], a[2]
+            nb = bits // 8
+            if nb == 0:
+                raise Inconclusive("imm%d outside is4" % bits)
+            if pos + nb > L:
+                raise Mismatch("length", "imm%d truncated" % bits)
+            v = int.from_bytes(b[pos:pos + nb], "little")
+            pos += nb
+            total += bits
+            osz = p["opsize"] or ((16 if F.p66 else (64 if mode == 64 else 32)) if kind == "" else 0)
+            if not _imm_ok(r[1], v, bits, sign, osz if sign == "signed" else 0):
+                raise Mismatch("operand-mismatch:imm", "op%d: " % i + "immediate %d requested, imm%d field holds %#x (%s)" % (r[1], bits, v, sign))
+        if f["imm"] and total != f["imm"] and not any(ops[i]["alts"][0][0] == "one" for i, r in imm_ops):
+            raise Inconclusive("record immediate bits %d != operand immediates %d" % (f["imm"], total))
+    # ---- 3DNow! suffix
+    if kind == "3DNOW":
+        if pos >= L or b[pos] != p["byte"]:
+            raise Mismatch("field-mismatch:opcode", "3DNow! suffix %02x expected" % p["byte"])
+        pos += 1
+    if pos != L:
+        raise Mismatch("length", "the record accounts for %d bytes, %d were appended (%s)" % (pos, L, b.hex()), 2)
+    return True
+
+
+_ID_LIMIT_64 = {"r8": 16, "r8hi": 4, "r16": 16, "r32": 16, "r64": 16, "xmm": 32, "ymm": 32, "zmm": 32, "mm": 8, "k": 8,
+                "tmm": 8, "st": 8, "creg": 16, "dreg": 16, "bnd": 4, "rip": 1}
+_ID_LIMIT_32 = {"r8": 4, "r8hi": 4, "r16": 8, "r32": 8, "r64": 0, "xmm": 8, "ymm": 8, "zmm": 8, "mm": 8, "k": 8,
+                "tmm": 8, "st": 8, "creg": 9, "dreg": 8, "bnd": 4, "rip": 0}
+
+
+def unencodable_ids(case):
+    """Registers of the request that do not exist in the mode (without APX): (list of descriptions)."""
+    lim = _ID_LIMIT_64 if case.mode == 64 else _ID_LIMIT_32
+    bad = []
+
+    def chk(kind, rid, where):
+        if kind == "sreg":
+            if not (1 <= rid <= 6):
+                bad.append("%s %s#%d" % (where, kind, rid))
+        elif kind in lim and rid >= lim[kind]:
+            bad.append("%s %s#%d" % (where, kind, rid))
+    for i, o in enumerate(case.ops):
+        if o[0] == "r":
+            chk(o[1], o[2], "op%d" % i)
+        elif o[0] == "m":
+            m = o[1]
+            for r, w in ((m.base, "base"), (m.index, "index")):
+                if isinstance(r, tuple) and r[0] not in ("label",):
+                    chk(r[0], r[1], "op%d %s" % (i, w))
+    if case.extra is not None:
+        chk(case.extra[0], case.extra[1], "extra")
+    return bad
+
+
+def _hi_vec(case):
+    for o in case.ops:
+        if o[0] == "r" and o[1] in ("xmm", "ymm", "zmm") and 16 <= o[2] < 32:
+            return True
+        if o[0] == "m" and o[1].index is not None and o[1].index[0] in ("xmm", "ymm", "zmm") and 16 <= o[1].index[1] < 32:
+            return True
+    return False
+
+
+def check(case, b, cands, relocated=False):
+    """relocated=True: the emitter attached a relocation to the instruction (absolute address completed when the code
+    is relocated): the address field of an absolute memory operand / moffs is then not compared, everything else is.
+    Verdict for one accepted case.  cands: all database forms of the mnemonic.  A failing verdict for a request
+    that names a register which cannot be encoded at all is filed under one clause of its own
+    (accepted-unencodable:*): the root cause is the acceptance, whatever field shows the damage."""
+    global _RELOCATED
+    _RELOCATED = relocated
+    try:
+        v = _check(case, b, cands)
+    finally:
+        _RELOCATED = False
+    if v.status == "fail":
+        bad = unencodable_ids(case)
+        if bad:
+            return Verdict("fail", "accepted-unencodable:register-id", "%s does not exist in %d-bit mode; %s" % (", ".join(bad), case.mode, v.detail))
+        if _hi_vec(case) and not any(f["prefix"] == "EVEX" and not f["apx"] and bind(f, case) is not None for f in cands):
+            return Verdict("fail", "accepted-unencodable:vec16-31-without-evex-form",
+                           "vector register 16..31 accepted for an instruction form that has no EVEX encoding; " + v.detail)
+    return v
+
+
+def _check(case, b, cands):
+    mode = case.mode
+    tried = 0
+    best = None
+    inconc = None
+    for f in cands:
+        if mode not in f["modes"]:
+            continue
+        if f["apx"] and (f["prefix"] != "EVEX" or f["opcode"]["mm"] == "MAP4" or f["opcode"]["nd"] or f["opcode"]["nf"] or
+                         any(o["data"] == "dfv" for o in f["operands"])):
+            continue        # REX2 / EVEX map 4 / NDD / NF / dfv: outside the decoder (and outside this asmjit)
+        _prep(f)
+        bound = bind(f, case)
+        if bound is None:
+            continue
+        tried += 1
+        stage = [0]
+        try:
+            _check_form(f, case, b, bound, stage)
+            return Verdict("pass", "", f["sig"])
+        except Mismatch as e:
+            # keep the mismatch of the candidate that got furthest (then prefer the form the case was generated from)
+            score = (stage[0], 1 if f["idx"] == case.form else 0, e.weight)
+            if best is None or score > best[0]:
+                best = (score, e, f)
+        except Inconclusive as e:
+            inconc = "%s [%s]" % (e, f["sig"])
+        except (IndexError, KeyError, ValueError, TypeError) as e:
+            inconc = "decoder error %r on form %s" % (e, f["sig"])
+    if inconc is not None:
+        return Verdict("inconclusive", "", inconc)
+    if best is not None:
+        e, f = best[1], best[2]
+        return Verdict("fail", e.clause, "%s (record '%s' %s)" % (e.detail, f["sig"], f["opcodeString"]))
+    if tried == 0:
+        return Verdict("fail", "operand-mismatch:no-form", "no database form of '%s' admits the accepted operands in %d-bit mode" % (case.name, mode))
+    return Verdict("inconclusive", "", "no verdict")
